@@ -5,6 +5,7 @@ package bfe_balance
 
 import (
 	"fmt"
+	"sort"
 
 	"verif/simrt"
 
@@ -19,6 +20,25 @@ import (
 // selectable.
 
 type ident struct{ cluster, sub, addr string }
+
+// harness loops never depend on Go's map order (replay must be exact)
+func sortedIdents(m map[ident][]*backend.BfeBackend) []ident {
+	var ks []ident
+	for k := range m {
+		ks = append(ks, k)
+	}
+	sort.Slice(ks, func(i, j int) bool { return ks[i].cluster+"/"+ks[i].sub+"/"+ks[i].addr < ks[j].cluster+"/"+ks[j].sub+"/"+ks[j].addr })
+	return ks
+}
+
+func sortedIdentsM(m map[ident]*mBackend) []ident {
+	var ks []ident
+	for k := range m {
+		ks = append(ks, k)
+	}
+	sort.Slice(ks, func(i, j int) bool { return ks[i].cluster+"/"+ks[i].sub+"/"+ks[i].addr < ks[j].cluster+"/"+ks[j].sub+"/"+ks[j].addr })
+	return ks
+}
 
 func closed(b *backend.BfeBackend) bool {
 	select {
@@ -131,6 +151,7 @@ func runC09(s *simrt.Sim) {
 	}
 	h.allUp = h.main // not used for designation here
 	initial := describe(h.t)
+	s.Sample = map[string]interface{}{"initial": initial}
 	fails := map[ident]int{}
 	h.fails = fails
 	nreload := tp.Range(1, 10, "n_reloads")
@@ -201,7 +222,8 @@ func runC09(s *simrt.Sim) {
 				}
 			}
 		}
-		for k, objs := range before {
+		for _, k := range sortedIdents(before) {
+			objs := before[k]
 			dup := dupSubs[k.cluster+"/"+k.sub]
 			nb, survives := now[k]
 			ob := beforeModel[k]
@@ -237,8 +259,43 @@ func runC09(s *simrt.Sim) {
 				s.Probe("removed_checked")
 			}
 		}
+		// sub-cluster level: after the reload every key goes where a freshly built
+		// instance of the same configuration sends it (new sub-clusters get their
+		// share, removed or zero-weight ones get no first-choice traffic)
+		fresh, err := h.t.build(nil)
+		if err != nil {
+			s.FailK("C09.load", "twin-load", "fresh build of the reloaded configuration failed: %v", err)
+			return
+		}
+		for _, c := range h.t.clusters {
+			g := h.t.conf[c.Name]
+			mb, err1 := h.main.table.Lookup(c.Name)
+			fb, err2 := fresh.table.Lookup(c.Name)
+			if err1 != nil || err2 != nil {
+				s.FailK("C09.new", "new-cluster-missing", "cluster %s: lookup after reload: %v / %v", c.Name, err1, err2)
+				return
+			}
+			for ki := range keyPool {
+				freq := mkReq(g, ki, 0)
+				fb.Balance(freq)
+				des := c.sub(freq.Backend.SubclusterName)
+				if des == nil || des.Name == "GSLB_BLACKHOLE" || len(des.eligible()) == 0 || dupSubs[c.Name+"/"+des.Name] {
+					continue
+				}
+				mreq := mkReq(g, ki, 0)
+				rb, rerr := mb.Balance(mreq)
+				s.Checked(1)
+				if mreq.Backend.SubclusterName != des.Name {
+					s.Note("dbg", fmt.Sprintf("main returned %v err=%v errmsg=%s; designated rr: %s", addrOf(rb), rerr, mreq.ErrMsg, mb.VerifSubs()[des.Name].VerifDebug()))
+					s.FailK("C09.new", "subcluster-choice-after-reload", "after reload (%s) key %d goes to %q, a fresh instance of the same config sends it to %q; gslb=%v",
+						d, ki, mreq.Backend.SubclusterName, des.Name, subNames(c))
+					return
+				}
+			}
+		}
 		// new identities become selectable within 2W smooth picks of their sub-cluster
-		for k, nb := range now {
+		for _, k := range sortedIdentsM(now) {
+			nb := now[k]
 			if _, was := before[k]; was || dupSubs[k.cluster+"/"+k.sub] {
 				continue
 			}
